@@ -81,11 +81,13 @@ PROP = {
                {"name": "ctl-asan", "target": "h_ctl", "sanitize": True, "gen": gen},
                {"name": "ascii-asan", "target": "h_pure", "sanitize": True, "gen": C05.gen_asan},
                {"name": "client", "target": "h_client", "gen": gen_client, "shard": 12},
-               {"name": "e2e", "target": "h_e2e", "gen": gen_e2e, "shard": 6}],
+               {"name": "client-asan", "target": "h_client", "sanitize": True, "gen": gen_client, "shard": 12},
+               {"name": "e2e", "target": "h_e2e", "gen": gen_e2e, "shard": 6},
+               {"name": "e2e-asan", "target": "h_e2e", "sanitize": True, "gen": gen_e2e, "shard": 6}],
     "trivial_tags": [],
     "rule": "real control_connection::recv over the in-memory transport on arbitrary / mutated / truncated server output with end-of-file or "
             "an I/O error at every position, every segmentation of short hostile streams, over-long lines; each outcome classified "
-            "(reply / ftp_exception / other exception / livelock detector / sanitizer abort); second stage = same under ASan+UBSan. "
+            "(reply / ftp_exception / other exception / livelock detector / sanitizer abort); second stage = same under ASan+UBSan; the client-level and end-to-end fault histories (peer close / reset during transfers, failing streams, TLS failures) also run under ASan+UBSan. "
             "distinct = distinct scenario lines; all are non-trivial (each contains server bytes or an injected fault).",
     "assumptions": ["memory safety / UB / exception types are checked dynamically (ASan/UBSan build, catch classification), not proved",
                     "silent peers are outside the property (no timeouts by design)"],
